@@ -128,6 +128,9 @@ def main():
             continue
         conf = json.load(open(cj))
         if not conf.get("ok"):
+            stale = os.path.join(out_root, f"{prop}-{k}")
+            if os.path.isdir(stale):
+                shutil.rmtree(stale)      # confirmed earlier, no longer valid against the current HEAD (see tools/redemo.py)
             summary.append((key, "NOT-CONFIRMED", (conf.get("suite_unexpected") or conf.get("error") or "")[:3] if not isinstance(conf.get("error"), str) else conf.get("error")[:100]))
             continue
         sid = f"{prop}-{k}"
@@ -150,6 +153,8 @@ def main():
                                           "unexpected_failures": conf.get("suite_unexpected"), "seconds": conf.get("suite_s"),
                                           "command": "pytest -q -p no:cacheprovider --timeout=900 --continue-on-collection-errors -n 8 in a scratch worktree of /repo HEAD with the patch applied; allowed: the baseline always-fail TestGaussianCloning::test_average_fidelity, the flaky test_one_dimensional_cluster_tokyo, and test_default_sf_logger (fails only under xdist)"},
                 "how": "tools/confirm_seeds.py: demo on the clean scratch worktree (must exit 0), git apply, demo (must exit != 0), full suite, git checkout",
+                "flaky_rerun": conf.get("flaky_rerun"),
+                "revalidated_at_final_head": {k_: v_ for k_, v_ in (conf.get("redemo") or {}).items() if k_ != "tail"} or None,
             },
             "detected_by": {p: sorted(set(k_.split("::")[0] + " @ " + "::".join(k_.split("::")[1:]) for k_ in ks))[:6] for p, ks in caught.items()},
             "detected": bool(caught.get(prop)) or bool(caught),
